@@ -1,123 +1,118 @@
 (* Props/C25.v — xlsx import never crashes (navigation skeleton of xlsx/src/import).
-   Statements only; every proof is [exact <lemma>] into Xlsx/SkeletonProofs.v and Xlsx/Refutations.v.
+   Statements only; every proof is [exact <lemma>] into Xlsx/SkeletonProofs.v, Xlsx/Refutations.v and
+   Xlsx/EscapeSafeProofs.v.
 
    [load_skel p] is the outcome class (Ok / Err / Panic) of `load_from_xlsx_bytes` followed by
-   `Model::from_workbook` on the package p, following the importer's lookups, `?`s, `[0]`s, HashMap
-   indexings, `unwrap`s and slices over abstract XML trees.  The full statement is REFUTED for the
-   code as it stands; what holds is the guarded form [C25_partial]. *)
+   `Model::from_workbook` on the package p, following the importer's lookups, `?`s, `.find(..)`,
+   HashMap `get`s, `unwrap_or`s and boundary-guarded slices over abstract XML trees.
+
+   HISTORY: on the tree the property was first checked against, the statement was REFUTED by 17
+   witness packages (findings F19a..F19i) and only a guarded form held.  All of those sites were
+   repaired in /repo (2db1935 F19a, 256a2e8 F19b, dfbff56 F19c, f8b4521 F19d, d5aa85e F19e,
+   1babd25 F19f, b5c23c2 F19g, b7d4aff F19h+F19j, 4ecd40d F19i); the model follows the code, the
+   guard is gone, and the statement is now PROVED at full strength for the skeleton. *)
 From IronCalc Require Import Base.Prelude Xlsx.Skeleton Xlsx.SkeletonProofs Xlsx.Refutations
   Generated.Witness_c25 Xlsx.EscapeSafe Xlsx.EscapeSafeProofs.
 
 (* the property at full strength (for the skeleton): no package makes the importer panic *)
 Definition C25_statement : Prop := forall p : pkg, load_skel p <> Panic.
 
-(* F19a REPAIRED (2db1935: `.find(sheetData).ok_or_else(..)?`): a worksheet part without
-   <sheetData> is an import error; the former witness satisfies the guard and returns Err *)
-Theorem C25_fixed_no_sheetdata : guard w_no_sheetdata = true /\ load_skel w_no_sheetdata = Err.
+Theorem C25_import_never_panics : C25_statement.
+Proof. exact load_skel_no_panic. Qed.
+Print Assumptions C25_import_never_panics.
+
+(* non-vacuity of the model: the four valid base packages of the harness load *)
+Example C25_bases_load :
+  load_skel base_0 = Ok tt /\ load_skel base_1 = Ok tt /\ load_skel base_2 = Ok tt /\ load_skel base_3 = Ok tt.
+Proof. exact bases_load. Qed.
+Print Assumptions C25_bases_load.
+
+(* ---- the former refutation witnesses, now positive: the same packages (still built and imported
+   by the harness on every run) are import errors, or load ---- *)
+(* F19a REPAIRED (2db1935): a worksheet part without <sheetData> *)
+Theorem C25_fixed_no_sheetdata : load_skel w_no_sheetdata = Err.
 Proof. exact fixed_no_sheetdata. Qed.
 Print Assumptions C25_fixed_no_sheetdata.
 
-(* F19b: a comments Target shorter than two bytes  (worksheets.rs `target.replace_range(..2, v[0])`) *)
-Theorem C25_refuted_short_target : ~ C25_statement.
-Proof. exact refuted_short_target_empty. Qed.
-Print Assumptions C25_refuted_short_target.
+(* F19b REPAIRED (256a2e8): a comments Target of zero bytes *)
+Theorem C25_fixed_short_target : load_skel w_short_target_empty = Err.
+Proof. exact fixed_short_target_empty. Qed.
+Print Assumptions C25_fixed_short_target.
 
-Theorem C25_refuted_short_target_one_byte : ~ C25_statement.
-Proof. exact refuted_short_target_one. Qed.
-Print Assumptions C25_refuted_short_target_one_byte.
+(* F19b REPAIRED (256a2e8): a comments Target of one byte *)
+Theorem C25_fixed_short_target_one_byte : load_skel w_short_target_one = Err.
+Proof. exact fixed_short_target_one. Qed.
+Print Assumptions C25_fixed_short_target_one_byte.
 
-(* ... or whose byte 2 is inside a multi-byte character *)
-Theorem C25_refuted_nonboundary_target : ~ C25_statement.
-Proof. exact refuted_nonboundary_target. Qed.
-Print Assumptions C25_refuted_nonboundary_target.
+(* F19b REPAIRED (256a2e8): a comments Target whose byte 2 is inside a character *)
+Theorem C25_fixed_nonboundary_target : load_skel w_nonboundary_target = Err.
+Proof. exact fixed_nonboundary_target. Qed.
+Print Assumptions C25_fixed_nonboundary_target.
 
-(* ... the same slice on a table Target *)
-Theorem C25_refuted_short_table_target : ~ C25_statement.
-Proof. exact refuted_short_table_target. Qed.
-Print Assumptions C25_refuted_short_table_target.
+(* F19b REPAIRED (256a2e8): a table Target of zero bytes *)
+Theorem C25_fixed_short_table_target : load_skel w_short_table_target = Err.
+Proof. exact fixed_short_table_target. Qed.
+Print Assumptions C25_fixed_short_table_target.
 
-(* F19c: a worksheet Target without "/worksheets/"  (worksheets.rs `path.push_str(v[1])`) *)
-Theorem C25_refuted_no_worksheets_dir : ~ C25_statement.
-Proof. exact refuted_no_worksheets_dir. Qed.
-Print Assumptions C25_refuted_no_worksheets_dir.
+(* F19c REPAIRED (dfbff56): a worksheet Target without "/worksheets/" *)
+Theorem C25_fixed_no_worksheets_dir : load_skel w_no_worksheets_dir = Err.
+Proof. exact fixed_no_worksheets_dir. Qed.
+Print Assumptions C25_fixed_no_worksheets_dir.
 
-(* F19d REPAIRED (f8b4521: `rels.get(&sheet.id).ok_or_else(..)?`): a sheet whose r:id is not in
-   workbook.xml.rels is an import error *)
-Theorem C25_fixed_dangling_rid : guard w_dangling_rid = true /\ load_skel w_dangling_rid = Err.
+(* F19d REPAIRED (f8b4521): a sheet whose r:id is not in workbook.xml.rels *)
+Theorem C25_fixed_dangling_rid : load_skel w_dangling_rid = Err.
 Proof. exact fixed_dangling_rid. Qed.
 Print Assumptions C25_fixed_dangling_rid.
 
-(* F19e REPAIRED (d5aa85e: `sheets.get(index).ok_or_else(..)?`): a localSheetId beyond the
-   sheets is an import error *)
-Theorem C25_fixed_local_sheet_id :
-  guard w_local_sheet_id_out_of_range = true /\ load_skel w_local_sheet_id_out_of_range = Err.
+(* F19e REPAIRED (d5aa85e): a localSheetId beyond the sheets *)
+Theorem C25_fixed_local_sheet_id : load_skel w_local_sheet_id_out_of_range = Err.
 Proof. exact fixed_local_sheet_id_out_of_range. Qed.
 Print Assumptions C25_fixed_local_sheet_id.
 
-(* new: defined names but no worksheet relationship  (mod.rs `worksheets[0]`) *)
-Theorem C25_refuted_defined_name_without_worksheets : ~ C25_statement.
-Proof. exact refuted_defined_name_without_worksheets. Qed.
-Print Assumptions C25_refuted_defined_name_without_worksheets.
+(* F19f REPAIRED (1babd25): defined names but no worksheet relationship *)
+Theorem C25_fixed_defined_name_without_worksheets : load_skel w_defined_name_without_worksheets = Err.
+Proof. exact fixed_defined_name_without_worksheets. Qed.
+Print Assumptions C25_fixed_defined_name_without_worksheets.
 
-(* new: styles.xml without <fonts>/<fills>/<borders>/<cellStyleXfs>/<cellStyles>/<cellXfs>
-   (styles.rs, six `.collect::<Vec<Node>>()[0]`) *)
-Theorem C25_refuted_styles_no_fonts : ~ C25_statement.
-Proof. exact refuted_styles_no_fonts. Qed.
-Print Assumptions C25_refuted_styles_no_fonts.
-Theorem C25_refuted_styles_no_fills : ~ C25_statement.
-Proof. exact refuted_styles_no_fills. Qed.
-Print Assumptions C25_refuted_styles_no_fills.
-Theorem C25_refuted_styles_no_borders : ~ C25_statement.
-Proof. exact refuted_styles_no_borders. Qed.
-Print Assumptions C25_refuted_styles_no_borders.
-Theorem C25_refuted_styles_no_cellstylexfs : ~ C25_statement.
-Proof. exact refuted_styles_no_cellstylexfs. Qed.
-Print Assumptions C25_refuted_styles_no_cellstylexfs.
-Theorem C25_refuted_styles_no_cellstyles : ~ C25_statement.
-Proof. exact refuted_styles_no_cellstyles. Qed.
-Print Assumptions C25_refuted_styles_no_cellstyles.
-Theorem C25_refuted_styles_no_cellxfs : ~ C25_statement.
-Proof. exact refuted_styles_no_cellxfs. Qed.
-Print Assumptions C25_refuted_styles_no_cellxfs.
+(* F19g REPAIRED (b5c23c2): styles.xml without <fonts> *)
+Theorem C25_fixed_styles_no_fonts : load_skel w_styles_no_fonts = Err.
+Proof. exact fixed_styles_no_fonts. Qed.
+Print Assumptions C25_fixed_styles_no_fonts.
 
-(* new: an rgb attribute of 8 bytes whose byte 2 is inside a character  (util.rs `raw[2..]`) *)
-Theorem C25_refuted_rgb_nonboundary : ~ C25_statement.
-Proof. exact refuted_rgb_nonboundary. Qed.
-Print Assumptions C25_refuted_rgb_nonboundary.
+(* F19g REPAIRED (b5c23c2): styles.xml without <fills> *)
+Theorem C25_fixed_styles_no_fills : load_skel w_styles_no_fills = Err.
+Proof. exact fixed_styles_no_fills. Qed.
+Print Assumptions C25_fixed_styles_no_fills.
 
-(* new: a comment whose <t/> has no text  (worksheets.rs `n.text().unwrap()`) *)
-Theorem C25_refuted_comment_t_without_text : ~ C25_statement.
-Proof. exact refuted_comment_t_without_text. Qed.
-Print Assumptions C25_refuted_comment_t_without_text.
+(* F19g REPAIRED (b5c23c2): styles.xml without <borders> *)
+Theorem C25_fixed_styles_no_borders : load_skel w_styles_no_borders = Err.
+Proof. exact fixed_styles_no_borders. Qed.
+Print Assumptions C25_fixed_styles_no_borders.
 
-(* What holds: for every package that satisfies the (decidable, structural) indexing guard, the
-   importer skeleton returns Ok or Err.  The guard is the conjunction of exactly the assumptions
-   still refuted above: six style containers; no rgb slice off a boundary; every <t> of a comment
-   has text; every worksheet Target contains "/worksheets/"; comments/table Targets of sheet relationships are
-   at least two bytes with a boundary at 2; defined names come with a loaded worksheet. *)
-Theorem C25_partial : forall p : pkg, guard p = true -> load_skel p <> Panic.
-Proof. exact guard_no_panic. Qed.
-Print Assumptions C25_partial.
+(* F19g REPAIRED (b5c23c2): styles.xml without <cellStyleXfs> *)
+Theorem C25_fixed_styles_no_cellstylexfs : load_skel w_styles_no_cellstylexfs = Err.
+Proof. exact fixed_styles_no_cellstylexfs. Qed.
+Print Assumptions C25_fixed_styles_no_cellstylexfs.
 
-(* non-vacuity: the four valid base packages of the harness satisfy the guard and load *)
-Example C25_partial_nonvacuous :
-  (guard base_0 = true /\ load_skel base_0 = Ok tt) /\ (guard base_1 = true /\ load_skel base_1 = Ok tt) /\
-  (guard base_2 = true /\ load_skel base_2 = Ok tt) /\ (guard base_3 = true /\ load_skel base_3 = Ok tt).
-Proof. exact bases_load. Qed.
-Print Assumptions C25_partial_nonvacuous.
+(* F19g REPAIRED (b5c23c2): styles.xml without <cellStyles> *)
+Theorem C25_fixed_styles_no_cellstyles : load_skel w_styles_no_cellstyles = Err.
+Proof. exact fixed_styles_no_cellstyles. Qed.
+Print Assumptions C25_fixed_styles_no_cellstyles.
 
-(* tightness: each witness violates the guard (and only then can the skeleton panic) *)
-Theorem C25_witnesses_violate_guard :
-  guard w_short_target_empty = false /\ guard w_no_worksheets_dir = false /\
-  guard w_defined_name_without_worksheets = false /\ guard w_styles_no_cellstyles = false /\
-  guard w_rgb_nonboundary = false /\ guard w_comment_t_without_text = false.
-Proof.
-  exact (conj (proj1 panics_short_target_empty)
-        (conj (proj1 panics_no_worksheets_dir) (conj (proj1 panics_defined_name_without_worksheets)
-        (conj (proj1 panics_styles_no_cellstyles) (conj (proj1 panics_rgb_nonboundary)
-              (proj1 panics_comment_t_without_text)))))).
-Qed.
-Print Assumptions C25_witnesses_violate_guard.
+(* F19g REPAIRED (b5c23c2): styles.xml without <cellXfs> *)
+Theorem C25_fixed_styles_no_cellxfs : load_skel w_styles_no_cellxfs = Err.
+Proof. exact fixed_styles_no_cellxfs. Qed.
+Print Assumptions C25_fixed_styles_no_cellxfs.
+
+(* F19h REPAIRED (b7d4aff): an 8-byte rgb whose byte 2 is inside a character (now kept whole) *)
+Theorem C25_fixed_rgb_nonboundary : load_skel w_rgb_nonboundary = Ok tt.
+Proof. exact fixed_rgb_nonboundary. Qed.
+Print Assumptions C25_fixed_rgb_nonboundary.
+
+(* F19i REPAIRED (4ecd40d): a comment whose <t/> has no text (now read as empty) *)
+Theorem C25_fixed_comment_t_without_text : load_skel w_comment_t_without_text = Ok tt.
+Proof. exact fixed_comment_t_without_text. Qed.
+Print Assumptions C25_fixed_comment_t_without_text.
 
 (* ---- the `_xHHHH_` decoder of shared strings, t="str" values and cached formula strings ----
    (shared_strings.rs decode_xlsx_escapes; its VALUE is Codec/XmlEscape.v [decode], C24).
